@@ -215,6 +215,17 @@ func (c *Ctx) hasherPassThrough() {
 		}
 	}
 	r.Check(okC, "C06.hasher", FuncName(cmp), "bcrypt.CompareHashAndPassword(args)", posC, "hash and password handed to bcrypt unmodified, verdict returned as is", "the default hasher does not hand hash and password to bcrypt unmodified or does not return bcrypt's verdict")
+	if len(cmp.Blocks) > 0 {
+		q := PathQuery{StartBlock: cmp.Blocks[0], Cut: func(i ssa.Instruction) bool {
+			call, ok := i.(ssa.CallInstruction)
+			return ok && Callee(call) == fnBcryptCmp
+		}, GoalP: c.nonErrorReturn}
+		if p := q.Find(); p != nil {
+			r.Bad("C06.hasher", FuncName(cmp), "no verdict without bcrypt", posf(c, p[len(p)-1]), "the default hasher can report a match (a nil error) on a way that never asked bcrypt — for a stored hash of another form, an empty list of alternative hashers: any password is then accepted for such an account", c.P.DescribePath(p)...)
+		} else {
+			r.Ok("C06.hasher", FuncName(cmp), "no verdict without bcrypt", posC, "every way to a nil verdict passes bcrypt.CompareHashAndPassword")
+		}
+	}
 	// call sites: what is hashed at registration/recovery and what is compared at
 	// login is the submitted password as typed — the sibling sites must agree, so a
 	// site that trims, folds or re-encodes its input rejects (and counts as
